@@ -199,6 +199,7 @@ class Function:
         self._stores = None
         self._loads = None
         self._defs = None
+        self._cache = {}
         self.local_by_did = {l["did"]: l for l in d.get("locals", [])}
         for p in self.params:
             self.local_by_did.setdefault(p["did"], {"name": p["name"], "did": p["did"], "t": p["t"], "param": True})
@@ -411,8 +412,28 @@ class Function:
         return dfs(self.entry)
 
     # ------------------------------------------------------------------ defs / resolution
+    def _root_var(self, n):
+        """Root local/param of an lvalue like x, x.f, x.a[i] (not through pointers)."""
+        n = strip(n, casts=False)
+        while n is not None:
+            if n.k == "DeclRefExpr":
+                return n if n.did else None
+            if n.k == "MemberExpr" and not n.arrow:
+                n = strip(n.kids[0], casts=False)
+            elif n.k == "ArraySubscriptExpr":
+                b = strip(n.kids[0], casts=False)
+                # arrays decay: only follow when the base is an array lvalue, not a pointer value
+                if b is not None and b.t and b.t.endswith("]"):
+                    n = b
+                else:
+                    return None
+            else:
+                return None
+        return None
+
     def defs(self):
-        """did -> list of ('init'|'assign'|'addr'|'mod', node, value node)"""
+        """did -> list of (kind, node, value): kind in init|assign (whole-variable definition with a
+        value), mod (partial or in-place modification), addr (address escapes: unknown afterwards)."""
         if self._defs is not None:
             return self._defs
         d = {}
@@ -423,42 +444,82 @@ class Function:
                     if "init" in dc:
                         d.setdefault(dc["did"], []).append(("init", n, self.nodes[dc["init"]]))
                     else:
-                        d.setdefault(dc["did"], [])
+                        d.setdefault(dc["did"], []).append(("decl", n, None))
             elif k == "BinaryOperator" and n.op == "=":
                 t = strip(n.kids[0], casts=False)
                 if t.k == "DeclRefExpr" and t.did:
                     d.setdefault(t.did, []).append(("assign", n, n.kids[1]))
-            elif k == "CompoundAssignOperator":
-                t = strip(n.kids[0], casts=False)
-                if t.k == "DeclRefExpr" and t.did:
-                    d.setdefault(t.did, []).append(("mod", n, None))
-            elif k == "UnaryOperator" and n.op in ("++", "--"):
-                t = strip(n.kids[0], casts=False)
-                if t.k == "DeclRefExpr" and t.did:
-                    d.setdefault(t.did, []).append(("mod", n, None))
+                else:
+                    r = self._root_var(t)
+                    if r is not None:
+                        d.setdefault(r.did, []).append(("mod", n, None))
+            elif k == "CompoundAssignOperator" or (k == "UnaryOperator" and n.op in ("++", "--")):
+                r = self._root_var(n.kids[0])
+                if r is not None:
+                    d.setdefault(r.did, []).append(("mod", n, None))
             elif k == "UnaryOperator" and n.op == "&":
-                t = strip(n.kids[0], casts=False)
-                if t.k == "DeclRefExpr" and t.did:
-                    d.setdefault(t.did, []).append(("addr", n, None))
+                r = self._root_var(n.kids[0])
+                if r is not None:
+                    # the address escapes at the enclosing call / atomic builtin (or here)
+                    site = n
+                    p = n.parent
+                    while p is not None and p.k in ("ImplicitCastExpr", "CStyleCastExpr", "ParenExpr"):
+                        p = p.parent
+                    if p is not None and p.k in ("CallExpr", "AtomicExpr"):
+                        site = p
+                    d.setdefault(r.did, []).append(("addr", site, None))
         self._defs = d
         return d
 
     def single_def(self, did):
         """The unique defining value of a local that is assigned exactly once and whose address
         is never taken (so no other writer exists); None otherwise."""
-        ds = self.defs().get(did)
-        if not ds or len(ds) != 1:
+        ds = [x for x in self.defs().get(did, []) if x[0] != "decl"]
+        if len(ds) != 1:
             return None
         kind, node, val = ds[0]
         if kind in ("init", "assign"):
             return val
         return None
 
+    def reaching_def(self, use):
+        """Value expression that defines local `use` (a DeclRefExpr) on *every* path reaching it,
+        or None when several definitions / an escaped address / a modification may reach."""
+        ck = ("rd", use.id)
+        if ck in self._cache:
+            return self._cache[ck]
+        res = None
+        did = use.did
+        evs = self.defs().get(did, [])
+        v = self.single_def(did)
+        if v is not None and len([e for e in evs if e[0] != "decl"]) == 1:
+            res = v
+        elif evs:
+            kills = {e[1].id for e in evs}
+            isuse = lambda n: n is use
+            bar = lambda n: n.id in kills
+            cands = []
+            if self.in_cfg(use) or self.cfgpos(use) is not None:
+                if self.find_path("entry", isuse, barrier=bar) is not None:
+                    cands.append(("entry", None, None))
+                for e in evs:
+                    if self.cfgpos(e[1]) is None:
+                        cands.append(("?", None, None))
+                        continue
+                    if e[1].contains(use):
+                        continue  # the use is an operand of the defining event itself
+                    if self.find_path(e[1], isuse, barrier=bar) is not None:
+                        cands.append(e)
+            if len(cands) == 1 and cands[0][0] in ("init", "assign"):
+                res = cands[0][2]
+        self._cache[ck] = res
+        return res
+
     def resolve(self, n, depth=6):
-        """Follow single-definition locals to the expression that defines them."""
+        """Follow locals to the expression that defines them (flow-sensitive, unique reaching def)."""
         n = strip(n)
         while depth > 0 and n is not None and n.k == "DeclRefExpr" and n.did and n.dk == "local":
-            v = self.single_def(n.did)
+            v = self.reaching_def(n)
             if v is None:
                 return n
             n = strip(v)
